@@ -807,9 +807,6 @@ Qed.
 Lemma gen_clean_hash_checked k : clean_hash_checked k = true.
 Proof. destruct k; reflexivity. Qed.
 
-(* `missing` is decided by exists(), which follows links: a dangling link counts as already gone *)
-Lemma gen_clean_missing_follows : clean_missing_follows_links = true.
-Proof. reflexivity. Qed.
 
 (* the part of one iteration after `changed` is known *)
 Definition clean_tail (a : clean_args) (f : fsys) (p : str) (changed : bool) : fsys * cstep :=
@@ -857,24 +854,61 @@ Lemma clean_one_unfold a f n :
         end).
 Proof. reflexivity. Qed.
 
+(* file rows in a hashed output state carry a hash (CHECK constraint of the file table); only needed when `missing`
+   is decided without following links *)
+Definition hash_if_lexists (n : node) : Prop :=
+  clean_missing_follows_links = false -> memN (nfstate n) volatile_states = false -> nfhash n <> None.
+
 Lemma clean_one_removed a f n f' :
+  hash_if_lexists n ->
   clean_one a f n = (f', CRemoved) ->
   is_unlinkable (fs_get f (nlabel n)) = true /\ f' = fs_del f (nlabel n) /\ a_commit a = true /\
     (memN (nfstate n) volatile_states = true \/ (exists h, stat f (nlabel n) = SFile h /\ nfhash n = Some h) \/
      a_safe a = false).
 Proof.
-  rewrite clean_one_unfold. rewrite gen_clean_missing_follows.
-  destruct (stat f (nlabel n)) as [|h|] eqn:Hs; [intros H; inversion H| |].
-  all: destruct (memN (nfstate n) volatile_states) eqn:Hv.
-  1,3: intros H; apply clean_tail_removed in H; destruct H as [Hu [-> [Hc _]]];
-       (split; [exact Hu | split; [reflexivity | split; [exact Hc | left; reflexivity]]]).
-  all: rewrite gen_clean_hash_checked; cbn [negb].
-  - intros H. apply clean_tail_removed in H. destruct H as [Hu [-> [Hc Hwhy]]].
-    split; [exact Hu | split; [reflexivity | split; [exact Hc|]]].
-    destruct Hwhy as [Hwhy|Hwhy]; [|right; right; exact Hwhy].
-    destruct (nfhash n) as [r|]; [|discriminate Hwhy].
-    apply negb_false_iff in Hwhy. apply N.eqb_eq in Hwhy. subst r. right. left. exists h. split; reflexivity.
-  - intros H. inversion H.
+  intros Hhash. rewrite clean_one_unfold. unfold hash_if_lexists in Hhash.
+  destruct clean_missing_follows_links eqn:Hmf.
+  - (* exists(): follows links *)
+    destruct (stat f (nlabel n)) as [|h|] eqn:Hs; [intros H; inversion H| |].
+    all: destruct (memN (nfstate n) volatile_states) eqn:Hv.
+    1,3: intros H; apply clean_tail_removed in H; destruct H as [Hu [-> [Hc _]]];
+         (split; [exact Hu | split; [reflexivity | split; [exact Hc | left; reflexivity]]]).
+    all: rewrite gen_clean_hash_checked; cbn [negb].
+    + intros H. apply clean_tail_removed in H. destruct H as [Hu [-> [Hc Hwhy]]].
+      split; [exact Hu | split; [reflexivity | split; [exact Hc|]]].
+      destruct Hwhy as [Hwhy|Hwhy]; [|right; right; exact Hwhy].
+      destruct (nfhash n) as [r|]; [|discriminate Hwhy].
+      apply negb_false_iff in Hwhy. apply N.eqb_eq in Hwhy. subst r. right. left. exists h. split; reflexivity.
+    + intros H. inversion H.
+  - (* lexists(): a dangling link is not missing *)
+    destruct (fs_get f (nlabel n)) as [e|] eqn:Hg; [|intros H; inversion H].
+    destruct (memN (nfstate n) volatile_states) eqn:Hv.
+    + intros H. apply clean_tail_removed in H. destruct H as [Hu [-> [Hc _]]]. rewrite Hg in Hu.
+      split; [exact Hu | split; [reflexivity | split; [exact Hc | left; reflexivity]]].
+    + rewrite gen_clean_hash_checked. cbn [negb].
+      destruct (stat f (nlabel n)) as [|h|] eqn:Hs.
+      * intros H. apply clean_tail_removed in H. destruct H as [Hu [-> [Hc Hwhy]]]. rewrite Hg in Hu.
+        split; [exact Hu | split; [reflexivity | split; [exact Hc|]]].
+        destruct Hwhy as [Hwhy|Hwhy]; [|right; right; exact Hwhy].
+        destruct (nfhash n) as [r|] eqn:Hh; [discriminate Hwhy|].
+        exfalso. apply (Hhash eq_refl eq_refl). reflexivity.
+      * intros H. apply clean_tail_removed in H. destruct H as [Hu [-> [Hc Hwhy]]]. rewrite Hg in Hu.
+        split; [exact Hu | split; [reflexivity | split; [exact Hc|]]].
+        destruct Hwhy as [Hwhy|Hwhy]; [|right; right; exact Hwhy].
+        destruct (nfhash n) as [r|]; [|discriminate Hwhy].
+        apply negb_false_iff in Hwhy. apply N.eqb_eq in Hwhy. subst r. right. left. exists h. split; reflexivity.
+      * intros H. inversion H.
+Qed.
+
+(* the shape of a removal, without any hypothesis *)
+Lemma clean_one_removed_shape a f n f' :
+  clean_one a f n = (f', CRemoved) ->
+  is_unlinkable (fs_get f (nlabel n)) = true /\ f' = fs_del f (nlabel n) /\ a_commit a = true.
+Proof.
+  rewrite clean_one_unfold.
+  destruct (if clean_missing_follows_links then _ else _); [intros H; inversion H|].
+  destruct (if memN (nfstate n) volatile_states then _ else _) as [changed|]; [|intros H; inversion H].
+  intros H. apply clean_tail_removed in H. destruct H as [Hu [-> [Hc _]]]. split; [exact Hu | split; [reflexivity | exact Hc]].
 Qed.
 
 Lemma clean_one_other a f n f' st : clean_one a f n = (f', st) -> st <> CRemoved -> f' = f.
@@ -891,20 +925,21 @@ Definition clean_ok (a : clean_args) (f0 : fsys) (sel : list node) (p : str) : P
     (memN (nfstate n) volatile_states = true \/ (exists h0, stat f0 p = SFile h0 /\ nfhash n = Some h0) \/ a_safe a = false).
 
 Lemma clean_loop_inv a f0 sel ns : forall f removed f' removed' crash,
+  (forall n, In n sel -> hash_if_lexists n) ->
   (forall n, In n ns -> In n sel) ->
   trace_inv f0 f removed [] -> (forall x, In x removed -> clean_ok a f0 sel x) ->
   clean_loop a ns f removed = (f', removed', crash) ->
   trace_inv f0 f' removed' [] /\ (forall x, In x removed' -> clean_ok a f0 sel x).
 Proof.
-  induction ns as [|n ns IH]; intros f removed f' removed' crash Hsel Hinv Hok Hrun.
+  induction ns as [|n ns IH]; intros f removed f' removed' crash Hhash Hsel Hinv Hok Hrun.
   - cbn [clean_loop] in Hrun. inversion Hrun; subst. split; assumption.
   - cbn [clean_loop] in Hrun. destruct (clean_one a f n) as [f1 st] eqn:Hone.
     assert (forall m, In m ns -> In m sel) as Hsel' by (intros m Hm; apply Hsel; right; exact Hm).
     destruct st.
     + assert (f1 = f) as -> by (apply (clean_one_other _ _ _ _ _ Hone); discriminate).
-      apply (IH _ _ _ _ _ Hsel' Hinv Hok Hrun).
-    + destruct (clean_one_removed _ _ _ _ Hone) as [Hg [-> [Hc Hwhy]]].
-      apply (IH _ _ f' removed' crash Hsel' (trace_inv_file _ _ _ _ _ Hinv Hg)); [|exact Hrun].
+      apply (IH _ _ _ _ _ Hhash Hsel' Hinv Hok Hrun).
+    + destruct (clean_one_removed _ _ _ _ (Hhash n (Hsel n (or_introl eq_refl))) Hone) as [Hg [-> [Hc Hwhy]]].
+      apply (IH _ _ f' removed' crash Hhash Hsel' (trace_inv_file _ _ _ _ _ Hinv Hg)); [|exact Hrun].
       intros x [<-|Hx]; [|apply Hok; exact Hx].
       exists n. split; [apply Hsel; left; reflexivity | split; [reflexivity | split; [exact Hc|]]].
       split; [apply (is_unlinkable_sub f f0 _ (ti_sub _ _ _ _ Hinv) Hg)|].
@@ -938,14 +973,61 @@ Proof.
     apply (IH _ _ _ _ (walk_up_inv _ _ _ _ _ _ _ _ Hinv Hw) Hrun).
 Qed.
 
+Lemma clean_loop_trace a f0 ns : forall f removed f' removed' crash,
+  trace_inv f0 f removed [] -> (removed <> [] -> a_commit a = true) ->
+  clean_loop a ns f removed = (f', removed', crash) ->
+  trace_inv f0 f' removed' [] /\ (removed' <> [] -> a_commit a = true).
+Proof.
+  induction ns as [|n ns IH]; intros f removed f' removed' crash Hinv Hc Hrun.
+  - cbn [clean_loop] in Hrun. inversion Hrun; subst. split; assumption.
+  - cbn [clean_loop] in Hrun. destruct (clean_one a f n) as [f1 st] eqn:Hone. destruct st.
+    + assert (f1 = f) as -> by (apply (clean_one_other _ _ _ _ _ Hone); discriminate).
+      apply (IH _ _ _ _ _ Hinv Hc Hrun).
+    + destruct (clean_one_removed_shape _ _ _ _ Hone) as [Hg [-> Hcommit]].
+      apply (IH _ _ f' removed' crash (trace_inv_file _ _ _ _ _ Hinv Hg)); [intros _; exact Hcommit | exact Hrun].
+    + assert (f1 = f) as -> by (apply (clean_one_other _ _ _ _ _ Hone); discriminate).
+      inversion Hrun; subst. split; assumption.
+Qed.
+
+Lemma trace_inv_rev f fa fl dl : trace_inv f fa fl dl -> trace_inv f fa (rev fl) (rev dl).
+Proof.
+  intros [A B C D]. constructor.
+  - exact A.
+  - intros p H0 Hn. destruct (B p H0 Hn) as [H|H]; [left | right]; apply -> in_rev; exact H.
+  - intros p Hp. apply in_rev in Hp. apply C. exact Hp.
+  - intros d Hd. apply in_rev in Hd. destruct (D d Hd) as [D1 [D2 D3]]. split; [exact D1 | split; [exact D2|]].
+    intros p Hu H0. destruct (D3 p Hu H0) as [H|H]; [left | right]; apply -> in_rev; exact H.
+Qed.
+
+Lemma clean_tool_trace_only g a trs f :
+  let r := clean_tool g a trs f in
+  trace_inv f (k_fs r) (k_files r) (k_dirs r) /\ (k_files r <> [] -> a_commit a = true).
+Proof.
+  unfold clean_tool.
+  destruct (clean_loop a (sort_nodes_desc (clean_selected g a trs)) f []) as [[f1 removed] crash] eqn:Hloop.
+  destruct (clean_loop_trace a f _ f [] f1 removed crash (trace_inv_init f) (fun H => match H eq_refl with end) Hloop)
+    as [Hinv Hc].
+  assert (rev removed <> [] -> a_commit a = true) as Hc'.
+  { intros Hne. apply Hc. intros ->. apply Hne. reflexivity. }
+  destruct crash.
+  - cbn [k_fs k_files k_dirs]. split; [apply (trace_inv_rev f f1 removed []); exact Hinv | exact Hc'].
+  - destruct (fold_left _ _ (f1, [])) as [f2 dlog] eqn:Hfold. cbn [k_fs k_files k_dirs].
+    split; [apply trace_inv_rev; apply (walk_up_fold_inv _ _ _ _ _ _ _ Hinv Hfold) | exact Hc'].
+Qed.
+
+Definition hashed_rows (g : graph) : Prop := forall n, In n (gnodes g) -> hash_if_lexists n.
+
 Lemma clean_tool_trace g a trs f :
+  hashed_rows g ->
   let r := clean_tool g a trs f in
   trace_inv f (k_fs r) (k_files r) (k_dirs r) /\
   (forall x, In x (k_files r) -> clean_ok a f (clean_selected g a trs) x).
 Proof.
-  unfold clean_tool.
+  intros Hrows. unfold clean_tool.
   destruct (clean_loop a (sort_nodes_desc (clean_selected g a trs)) f []) as [[f1 removed] crash] eqn:Hloop.
-  destruct (clean_loop_inv a f (clean_selected g a trs) _ f [] f1 removed crash
+  assert (forall n, In n (clean_selected g a trs) -> hash_if_lexists n) as Hhash.
+  { intros n Hn. apply Hrows. unfold clean_selected in Hn. apply filter_In in Hn. exact (proj1 Hn). }
+  destruct (clean_loop_inv a f (clean_selected g a trs) _ f [] f1 removed crash Hhash
               (fun n Hn => sort_nodes_desc_in _ _ Hn) (trace_inv_init f)
               (fun x (H : In x []) => match H with end) Hloop) as [Hinv Hok].
   assert (forall fa fl dl, trace_inv f fa fl dl -> trace_inv f fa (rev fl) (rev dl)) as Hrev.
@@ -964,10 +1046,10 @@ Proof.
 Qed.
 
 Theorem removed_only_owned_clean g a trs f ever :
-  ever_inv g ever ->
+  ever_inv g ever -> hashed_rows g ->
   forall p, In p (k_files (clean_tool g a trs f)) -> owned_removal g f ever (negb (a_safe a)) p.
 Proof.
-  intros Hev p Hp. destruct (clean_tool_trace g a trs f) as [_ Hok].
+  intros Hev Hrows p Hp. destruct (clean_tool_trace g a trs f Hrows) as [_ Hok].
   destruct (Hok p Hp) as [n [Hsel [Hlab [_ [Hf Hwhy]]]]].
   unfold clean_selected in Hsel. apply filter_In in Hsel. destruct Hsel as [Hn Hcond].
   apply andb_true_iff in Hcond. destruct Hcond as [Hcond _].
@@ -983,14 +1065,14 @@ Qed.
 
 Theorem dir_removed_only_if_empty_clean g a trs f :
   let r := clean_tool g a trs f in dirs_only_when_emptied f (k_fs r) (k_files r) (k_dirs r).
-Proof. cbv zeta. apply trace_inv_dirs. apply clean_tool_trace. Qed.
+Proof. cbv zeta. apply trace_inv_dirs. apply clean_tool_trace_only. Qed.
 
 (* without --commit nothing is removed *)
 Theorem clean_without_commit g a trs f : a_commit a = false -> k_files (clean_tool g a trs f) = [].
 Proof.
-  intros Hc. destruct (clean_tool_trace g a trs f) as [_ Hok].
+  intros Hc. destruct (clean_tool_trace_only g a trs f) as [_ Hok].
   destruct (k_files (clean_tool g a trs f)) as [|x l] eqn:E; [reflexivity|].
-  destruct (Hok x (or_introl eq_refl)) as [n [_ [_ [Hcommit _]]]]. congruence.
+  assert (a_commit a = true) by (apply Hok; discriminate). congruence.
 Qed.
 
 (* ---- C07: orphans are removed from graph and disk ------------------------------------------ *)
